@@ -16,7 +16,7 @@
      wf_net n       = version in {4, 6}, 0 <= value < 2^w, 0 <= prefixlen <= w                      (Proofs/C02.v) *)
 From Coq Require Import ZArith List Bool String Ascii.
 From NV Require Import Base.PyVal Base.PyStr Model.IpText Model.FbSocket Model.AddrText Model.Ip Model.NetText
-  Proofs.C01_V6 Proofs.C02 Proofs.C03_Str Proofs.C03 Proofs.C03_Total.
+  Proofs.C01_V6 Proofs.C02 Proofs.C03_Str Proofs.C03 Proofs.C03_Total Proofs.C03_Abbrev.
 Import ListNotations.
 Open Scope Z_scope.
 
@@ -194,8 +194,8 @@ Theorem C03_rejects :
      (do a <- int_to_str be ver v None; net_init be (AStr (a ++ "/" ++ t)) ip version flags) = Raise AddrFormatError) /\
   (* [rejects_address] *)
   (* an address part that the strict parser of the family (families) tried rejects and, for IPv4, that the partial
-     expansion does not turn into an acceptable dotted quad; with or without a prefix part *)
-  (forall be val1 rest version flags, contains_char "/" val1 = false ->
+     expansion does not turn into an acceptable dotted quad; with or without a prefix part, implicit_prefix on or off *)
+  (forall be val1 rest ip version flags, contains_char "/" val1 = false ->
      (rest = ""%string \/ exists t, rest = ("/" ++ t)%string) ->
      (version = Some 4 \/ version = None ->
         init_str be val1 (Some 4) INET_PTON = Raise AddrFormatError /\
@@ -203,17 +203,12 @@ Theorem C03_rejects :
          exists e, expand_partial_address val1 = Ok e /\ init_str be e (Some 4) INET_PTON = Raise AddrFormatError)) ->
      (version = Some 6 \/ version = None -> init_str be val1 (Some 6) INET_PTON = Raise AddrFormatError) ->
      version = Some 4 \/ version = Some 6 \/ version = None ->
-     net_init be (AStr (val1 ++ rest)) false version flags = Raise AddrFormatError) /\
-  (* [rejects_address_implicit] *)
-  (* the same under implicit_prefix=True, where the text the parser sees is cidr_abbrev_to_verbose(s) *)
-  (forall be s val1 rest version flags, cidr_abbrev_to_verbose s = Ok (val1 ++ rest)%string ->
-     contains_char "/" val1 = false -> (rest = ""%string \/ exists t, rest = ("/" ++ t)%string) ->
-     (version = Some 4 \/ version = None ->
-        init_str be val1 (Some 4) INET_PTON = Raise AddrFormatError /\
-        (expand_partial_address val1 = Raise AddrFormatError \/
-         exists e, expand_partial_address val1 = Ok e /\ init_str be e (Some 4) INET_PTON = Raise AddrFormatError)) ->
-     (version = Some 6 \/ version = None -> init_str be val1 (Some 6) INET_PTON = Raise AddrFormatError) ->
-     version = Some 4 \/ version = Some 6 \/ version = None ->
+     net_init be (AStr (val1 ++ rest)) ip version flags = Raise AddrFormatError) /\
+  (* [implicit_prefix_conservative] *)
+  (* for EVERY string: what IPNetwork(s) rejects, IPNetwork(s, implicit_prefix=True) rejects too (the abbreviation step
+     cannot make an unreadable text readable) *)
+  (forall be s version flags, version = Some 4 \/ version = Some 6 \/ version = None ->
+     net_init be (AStr s) false version flags = Raise AddrFormatError ->
      net_init be (AStr s) true version flags = Raise AddrFormatError) /\
   (* [rejects_tuple] *)
   (forall be v p ip version flags ver, version = Some ver -> valid_ver ver = true ->
@@ -226,7 +221,7 @@ Theorem C03_rejects :
   (forall be t ip version flags, (List.length t <> 2)%nat ->
      version = Some 4 \/ version = Some 6 \/ version = None ->
      net_init be (ATuple t) ip version flags = Raise AddrFormatError).
-Proof. exact (conj rejects_prefix (conj rejects_mask (conj not_contiguous (conj rejects_mask_text (conj rejects_address (conj rejects_address_implicit (conj rejects_tuple (conj rejects_tuple_implicit rejects_tuple_len)))))))). Qed.
+Proof. exact (conj rejects_prefix (conj rejects_mask (conj not_contiguous (conj rejects_mask_text (conj rejects_address_any (conj implicit_prefix_conservative (conj rejects_tuple (conj rejects_tuple_implicit rejects_tuple_len)))))))). Qed.
 Print Assumptions C03_rejects.
 
 (* ============================================================ (7) for EVERY argument: what can escape, what can be built *)
